@@ -286,4 +286,75 @@ def run(ctx):
     r5.ok("generation writes census", f"{n_w} writes to dumped slots examined in {len(gen_reach)} generation-reachable functions", "")
     r5.ok("convert:_survey", "ConvertResult exposes the survey object after generation (so R5 matters)", "pyxform/xls2xform.py")
     rules.append(r5)
+    rules.append(_question_roundtrip_rule(ctx))
+    # the dumped survey carries its trigger maps (as JSON lists); the builder re-collects them from the rows (as tuples):
+    # after a reload each (target, expression) pair must be there once, not once per representation
+    bcls = repo.cls("pyxform.builder:SurveyElementBuilder")
+    cf = bcls.methods["create_survey_element_from_dict"]
+    scls2 = repo.cls("pyxform.survey:Survey")
+    for attr in ("setvalues_by_triggering_ref", "setgeopoint_by_triggering_ref"):
+        loaded = {"${t}": [["c1", "1 + 1"], ["c2", "now()"]]}
+        collected = {"${t}": [("c1", "1 + 1"), ("c2", "now()")]}
+        sec = Obj(scls2, {"setvalues_by_triggering_ref": {}, "setgeopoint_by_triggering_ref": {}, "name": "data"}, name="rebuilt")
+        sec.attrs[attr] = {k: [list(x) for x in v] for k, v in loaded.items()}
+        b = Obj(bcls, {"setvalues_by_triggering_ref": {}, "setgeopoint_by_triggering_ref": {}, "_add_none_option": False}, name="builder")
+        b.attrs[attr] = {k: list(v) for k, v in collected.items()}
+        it = ctx.interp("C16.R2", hooks={"fnname:_create_section_from_dict": lambda i, a, k, n, sec=sec: sec})
+        it.reset([])
+        try:
+            out = it.call_function(cf, [b], {"d": {"type": "survey", "name": "data", "children": []}}, None, cf.node)
+            got = (out.attrs.get(attr) or {}).get("${t}") if isinstance(out, Obj) else None
+            pairs = sorted(tuple(x) for x in (got or []))
+            r2.check(pairs == [("c1", "1 + 1"), ("c2", "now()")], f"builder:reload {attr}", "a reloaded survey holds each triggered (target, expression) pair exactly once",
+                     cf.loc(), why_fail=f"{got!r}")
+        except Raised as e:
+            r2.fail(f"builder:reload {attr}", f"evaluates ({e.exc_name}{e.exc_args})", cf.loc())
     return rules
+
+
+def _question_roundtrip_rule(ctx):
+    """C16.R6: construct -> dump -> JSON text -> construct again, evaluated abstractly for single questions whose cells
+    override / extend the type table's defaults: the rebuilt question has the same effective bind, control and texts."""
+    import json as _json
+    repo = ctx.repo
+    it0 = ctx.consts.interp
+    r6 = Rule("C16", "C16.R6", "a question rebuilt from its own dump has the same effective bind / control", floor=8,
+              necessary="an override of a type default (range decimal, bind::type on a calculate, read_only=no on a note) lost in the dump changes the XForm after reload")
+    cases = [
+        ("range with decimal step", "pyxform.question:RangeQuestion", {"name": "r", "type": "range", "label": "L", "bind": {"type": "decimal"}, "parameters": {"start": "1", "end": "2", "step": "0.5"}}),
+        ("calculate with bind::type", "pyxform.question:InputQuestion", {"name": "c", "type": "calculate", "bind": {"type": "int", "calculate": "1 + 1"}}),
+        ("note made editable", "pyxform.question:InputQuestion", {"name": "n", "type": "note", "label": "N", "bind": {"readonly": "false()"}}),
+        ("text with logic and appearance", "pyxform.question:InputQuestion", {"name": "t", "type": "text", "label": {"en": "T", "fr": "T2"}, "hint": "H", "bind": {"relevant": "${a} > 1", "required": "yes"}, "control": {"appearance": "multiline"}}),
+        ("integer with constraint message", "pyxform.question:InputQuestion", {"name": "i", "type": "integer", "label": "I", "bind": {"constraint": ". > 0", "jr:constraintMsg": {"en": "m"}}}),
+        ("photo with parameters", "pyxform.question:UploadQuestion", {"name": "p", "type": "photo", "label": "P", "bind": {"orx:max-pixels": "640"}, "control": {"intent": "x.y"}}),
+        ("select with own control override", "pyxform.question:MultipleChoiceQuestion", {"name": "s", "type": "select one", "label": "S", "itemset": "l", "list_name": "l", "control": {"appearance": "minimal"}, "bind": {"type": "int"}}),
+        ("geopoint with accuracy", "pyxform.question:InputQuestion", {"name": "g", "type": "geopoint", "label": "G", "control": {"accuracyThreshold": "5"}, "bind": {"odk:allow-mock-accuracy": "true"}}),
+    ]
+    keep = ("name", "type", "label", "hint", "bind", "control", "parameters", "default", "itemset", "list_name", "media", "instance", "choice_filter", "trigger", "query")
+    for desc, fq, kwargs in cases:
+        ci = repo.cls(fq)
+        slots = tuple(_slots(ctx, ci))
+        tj = next((c.methods["to_json_dict"] for c in it0.mro(ci) if "to_json_dict" in c.methods), None)
+        it = ctx.interp("C16.R6", hooks={"fnname:validate": lambda i, a, k, n: None})
+        try:
+            it.reset([])
+            q1 = it.call(ClassVal(ci), [], _json.loads(_json.dumps(kwargs)), None)
+            q1.slots = slots
+            it.reset([])
+            d = it.call_function(tj, [q1], {}, None, tj.node)
+            d = _json.loads(_json.dumps(d))  # through JSON text
+            it.reset([])
+            q2 = it.call(ClassVal(ci), [], dict(d), None)
+            q2.slots = slots
+            it.reset([])
+            d2 = it.call_function(tj, [q2], {}, None, tj.node)
+        except Raised as e:
+            r6.fail(f"roundtrip[{desc}]", f"evaluates ({e.exc_name}{e.exc_args})", tj.loc())
+            continue
+        except (TypeError, ValueError) as e:
+            r6.fail(f"roundtrip[{desc}]", f"dump is JSON-serialisable ({e})", tj.loc())
+            continue
+        diff = {k: (q1.attrs.get(k), q2.attrs.get(k)) for k in keep if q1.attrs.get(k) != q2.attrs.get(k)}
+        r6.check(not diff, f"roundtrip[{desc}]", "rebuilt question has the same effective fields", tj.loc(), why_fail=f"{diff}"[:250])
+        r6.check(_json.loads(_json.dumps(d2)) == d, f"roundtrip[{desc}]:dump stable", "dump -> load -> dump is a fixpoint", tj.loc(), why_fail=f"{d} vs {d2}"[:250])
+    return r6
